@@ -82,6 +82,12 @@ func swarmGen(r *rand.Rand, initial int64) GenCfg {
 	if r.Intn(3) == 0 {
 		g.EqualPools = true
 	}
+	if r.Intn(4) == 0 {
+		g.TightSupply = true
+		if g.NCoin == 0 {
+			g.NCoin = 1
+		}
+	}
 	return g
 }
 
@@ -162,7 +168,7 @@ func init() {
 		Make: func(r *rand.Rand, seed int64, chain int, tier string) *Scenario {
 			p := GeneralProfile()
 			p.PBigAmt = 0.3
-			for _, k := range []string{"sellall", "sellallpool", "buy", "buypool", "remliq", "burn", "mint", "unbond"} {
+			for _, k := range []string{"sellall", "sellallpool", "buy", "buypool", "remliq", "burn", "mint", "unbond", "buyheadroom"} {
 				p.W[k] = 8
 			}
 			return baseScenario("C02", r, seed, chain, tier, p, nil)
